@@ -701,3 +701,86 @@ func DataWalk(seed uint64) *Case {
 		}
 	}
 }
+
+// RMW is a C05/C10 sub-profile: read-modify-write groups, each on a line of
+// its own: one or two loads of the line, a value computed from them, a store
+// of that value into the same line. The store is ordered behind the loads by
+// the register dependence, which is the one same-line pattern MVP-4…6.3 have
+// to get right without tracking memory dependences. Optionally a read-only
+// walk over other lines displaces the written lines before the run ends.
+func RMW(seed uint64) *Case {
+	for try := uint64(0); ; try++ {
+		r := rng.New(rng.Derive(seed, 0x4d57, try))
+		p := &Profile{Name: "rmw", PoolMin: 4, PoolMax: 8, AddrRegsMax: 1, SubWord: true, MemSizes: []int{2048, 4096, 8192}, WAlu: 1}
+		b := NewBuilder(r, p)
+		groups := r.Range(1, 4)
+		used := map[int]bool{}
+		a := b.Addr[0]
+		abase := int(b.AddrVal[a])
+		for g := 0; g < groups; g++ {
+			line := r.Intn(12)
+			for used[line] {
+				line = (line + 1) % 12
+			}
+			used[line] = true
+			lbase := 64 * line
+			x, y := b.Pool[(2*g)%len(b.Pool)], b.Pool[(2*g+1)%len(b.Pool)]
+			lop := []isa.Op{isa.LW, isa.LW, isa.LH, isa.LB}[r.Intn(4)]
+			sz := lop.AccessSize()
+			// through the address register when the offset fits, else absolute
+			ref := func(addr int) (isa.Reg, int32) {
+				if d := addr - abase; r.Bool() && d >= -2048 && d <= 2047 {
+					return a, int32(d)
+				}
+				return isa.Zero, int32(addr)
+			}
+			rs, off := ref(lbase + sz*r.Intn(64/sz))
+			b.Emit(isa.Inst{Op: lop, Rd: x, Rs1: rs, Imm: off})
+			two := r.Bool()
+			if two {
+				o2 := r.Intn(64)
+				if r.Chance(1, 3) {
+					o2 = 63
+				}
+				rs2, off2 := ref(lbase + o2)
+				b.Emit(isa.Inst{Op: isa.LB, Rd: y, Rs1: rs2, Imm: off2})
+			}
+			for k := r.Intn(3); k > 0; k-- {
+				b.Emit(isa.Inst{Op: isa.NOP})
+			}
+			if two {
+				b.Emit(isa.Inst{Op: []isa.Op{isa.ADD, isa.XOR, isa.SUB}[r.Intn(3)], Rd: x, Rs1: x, Rs2: y})
+			} else {
+				b.Emit(isa.Inst{Op: isa.ADDI, Rd: x, Rs1: x, Imm: int32(r.Range(1, 100))})
+			}
+			sop := []isa.Op{isa.SW, isa.SW, isa.SH, isa.SB}[r.Intn(4)]
+			ssz := sop.AccessSize()
+			rs3, off3 := ref(lbase + ssz*r.Intn(64/ssz))
+			b.Emit(isa.Inst{Op: sop, Rs2: x, Rs1: rs3, Imm: off3})
+		}
+		if r.Bool() {
+			// displace: a counted read-only walk over lines 16..
+			w, c := walkRegs[0], loopRegs[0]
+			iters := r.Range(17, 40)
+			for 1024+64*iters+8 > b.ReadOnlyFrom {
+				iters--
+			}
+			b.Emit(isa.Inst{Op: isa.LI, Rd: w, Imm: 1024})
+			b.Emit(isa.Inst{Op: isa.LI, Rd: c, Imm: int32(iters)})
+			top := b.NewLabel()
+			b.Place(top)
+			b.Emit(isa.Inst{Op: isa.LW, Rd: scratchRegs[1], Rs1: w, Imm: 0})
+			b.Emit(isa.Inst{Op: isa.ADDI, Rd: w, Rs1: w, Imm: 64})
+			b.Emit(isa.Inst{Op: isa.ADDI, Rd: c, Rs1: c, Imm: -1})
+			b.Emit(isa.Inst{Op: isa.BNEZ, Rs1: c, Label: top})
+		}
+		if r.Bool() {
+			b.Emit(isa.Inst{Op: isa.RET})
+		}
+		b.Prog.Labels["END"] = len(b.Prog.Insts)
+		b.Tag("rmw")
+		if cs := Finish(b, 5000, false); cs != nil {
+			return cs
+		}
+	}
+}
